@@ -104,8 +104,12 @@ class Mutator(ast.NodeTransformer):
 def sh(cmd, cwd=None, env=None, timeout=3600):
     e = dict(os.environ)
     e.update(env or {})
-    p = subprocess.run(cmd, cwd=cwd, env=e, stdout=subprocess.PIPE,
-                       stderr=subprocess.STDOUT, timeout=timeout, text=True)
+    try:
+        p = subprocess.run(cmd, cwd=cwd, env=e, stdout=subprocess.PIPE,
+                           stderr=subprocess.STDOUT, timeout=timeout,
+                           text=True)
+    except subprocess.TimeoutExpired:
+        return 124, 'timeout'
     return p.returncode, p.stdout
 
 
@@ -160,7 +164,7 @@ def main():
                 t0 = time.time()
                 rc, o = sh([PY, '-m', 'pytest', '-q', '-x', '-p',
                             'no:cacheprovider'], cwd=repo, env=env,
-                           timeout=900)
+                           timeout=180)
                 rec = {'file': a.file, 'site': list(site), 'diff': diff}
                 if rc != 0:
                     rec['verdict'] = 'pinned-tests-fail'
